@@ -1,9 +1,29 @@
 """C17 — instruction-set restrictions chosen by the user are honoured (PUSH0 flag, contract selection)."""
 import json, random
 from collections import Counter
-import common, docrun, gen, pool, docs, e2e, drv
+import common, docrun, gen, pool, docs, e2e, drv, vocab
 
 THEOREMS = ["Cost.costs_append", "Cost.costs_flag", "Cost.saving_flag", "Cost.selection_frame", "Cost.selection_names"]
+
+
+def plain_items(text):
+    """the tool's plain rendering of a block (blocks.csv) -> [(name, value)]"""
+    toks, out, i = text.split(), [], 0
+    while i < len(toks):
+        t = toks[i]
+        i += 1
+        if t == "PUSH":
+            k = toks[i]
+            if k in ("[tag]", "data", "#[$]", "[$]"):
+                out.append(("PUSH " + k, toks[i + 1])); i += 2
+            else:
+                int(k, 16)
+                out.append(("PUSH", k)); i += 1
+        elif t in ("PUSHIMMUTABLE", "PUSHLIB", "ASSIGNIMMUTABLE", "tag"):
+            out.append((t, toks[i])); i += 1
+        else:
+            out.append((t, None))
+    return out
 
 
 def run(tier):
@@ -15,8 +35,14 @@ def run(tier):
     # (a) documents with PUSH0 disabled / enabled
     dl = docs.handcrafted()[:4] + docrun.synthesized(sd + 31, 8 if tier == "quick" else 100, ncontracts=2, nblocks=5)
     full = {}
+    csv_reqs, csv_meta = [], []
+    # with PUSH0 disabled also a document whose zero pushes are written with leading zeros (the reader keeps the spelling of a value)
+    zi = lambda n, v=None: dict({"begin": 1, "end": 2, "name": n, "source": 0}, **({"value": v} if v is not None else {}))
+    zcode = [zi("tag", "1"), zi("JUMPDEST"), zi("PUSH", "00"), zi("CALLDATALOAD"), zi("PUSH", "0000"), zi("MSTORE"), zi("PUSH", "1"), zi("PUSH", "2"), zi("ADD"),
+             zi("PUSH", "00"), zi("SSTORE"), zi("STOP")]
+    zz = {"contracts": {"z.sol:Z": {"asm": {".code": zcode, ".data": {"0": {".auxdata": "a4", ".code": [dict(i) for i in zcode]}}}}}, "version": "0.8.15+commit.e14f2714"}
     for flag, opts in (("off", ["-greedy", "-push0"]), ("on", ["-greedy"])):
-        for r in docrun.run_docs(dl, opts):
+        for r in docrun.run_docs(dl + ([("handzeros.json_solc", zz)] if flag == "off" else []), opts):
             res = r["res"]
             outname = r["name"].split(".")[0] + "_optimized.json_solc"
             if r["status"] != "ok" or not res or res.get("rc") != 0 or outname not in res["files"]:
@@ -26,6 +52,21 @@ def run(tier):
             dout = json.loads(res["files"][outname])
             if flag == "on":
                 full[r["name"]] = dout
+            # the per-block accounting the tool writes (blocks.csv): instructions as it read/emitted them, priced under the same flag
+            import csv as _csv, io as _io
+            for row in _csv.DictReader(_io.StringIO(res["files"].get("blocks.csv", ""))):
+                for side in ("old", "new"):
+                    text = row.get(side + "_instrs") or ""
+                    if flag == "off" and "PUSH0" in text.split():
+                        violations.append({"kind": "push0-emitted-when-disabled", "input": r["name"], "options": opts,
+                                           "what": "%s %s: the %s instructions of block %s contain PUSH0 with PUSH0 disabled: %s" % (r["name"], opts, side, row.get("block_id"), text[:200])})
+                    try:
+                        toks = " ".join(vocab.token(n, v) for n, v in plain_items(text))
+                    except (vocab.Unsupported, ValueError, IndexError):
+                        c["csv-rows-outside-vocabulary"] += 1
+                        continue
+                    csv_reqs.append("COST\t%s\t%s" % ("0" if flag == "off" else "1", toks))
+                    csv_meta.append((r["name"], opts, row.get("block_id"), side, text, [row.get(side + "_gas"), row.get(side + "_size"), row.get(side + "_length")], toks))
             sin, sout = dict(docrun.code_sections(r["doc"])), dict(docrun.code_sections(dout))
             for path in sin:
                 if path not in sout:
@@ -37,9 +78,20 @@ def run(tier):
                     if flag == "off" and n_out > n_in:
                         violations.append({"kind": "push0-emitted-when-disabled", "input": r["name"], "options": opts,
                                            "what": "%s %s: block has %d PUSH0 items in the output and %d in the input with PUSH0 disabled" % (r["name"], path, n_out, n_in)})
+    for o, (name, opts, bid, side, text, tool, toks) in zip(drv.batch(csv_reqs), csv_meta):
+        c["csv-cost-comparisons"] += 1
+        ref = o.split()
+        if any(x in toks.split() for x in ("SLOAD", "SSTORE", "E1:BALANCE", "E1:EXTCODESIZE", "E1:EXTCODEHASH")) or "X:EXTCODECOPY" in toks:
+            ref, tool = ref[1:], tool[1:]
+        if ref != [str(x) for x in tool]:
+            violations.append({"kind": "push0-pricing-inconsistent", "input": name, "options": opts,
+                               "what": "blocks.csv of %s under %s, %s side of %s (%s): tool prices (gas,bytes,len)=%s, reference with the same flag %s" % (name, opts, side, bid, text[:160], tool, o)})
     # (b) plain blocks: the emitted text must not contain PUSH0 when disabled; costs priced with the same flag on both sides
     blocks = gen.blocks(sd * 5 + 40, 200 if tier == "quick" else 3000) + ["PUSH1 0x0 PUSH1 0x0 ADD DUP1", "PUSH1 0x5 PUSH1 0x5 SUB", "DUP1 DUP1 XOR",
                                                                           "PUSH1 0x0 DUP2 MSTORE PUSH1 0x0 DUP1 SSTORE"]
+    # every spelling of a zero push, kept (nothing to optimize around it) and next to something that is optimized
+    for z in ("PUSH1 0x0", "PUSH1 0x00", "PUSH1 0", "PUSH1 00", "PUSH2 0x0000", "PUSH32 0x" + "0" * 64, "PUSH0"):
+        blocks += ["%s CALLDATALOAD %s SLOAD" % (z, z), "%s DUP2 MSTORE PUSH1 0x1 PUSH1 0x2 ADD" % z, "%s %s SUB %s" % (z, z, z)]
     runs = e2e.run_optimize(blocks, [["-greedy", "-push0"], ["-greedy"]], assign="all")
     reqs, meta = [], []
     for text, opts, e, st in runs:
